@@ -344,7 +344,8 @@ async fn client_main(c: usize, kind: u8, tls: bool, stream: BoxIo, gate: Arc<Gat
 
 struct World {
     log: Log,
-    sockets: bool,
+    /// (sleep per round in ms, quiet rounds needed) for real sockets, (0, 0) in memory
+    sockets: (u64, usize),
     tls: bool,
     dial: Dial,
     clients: Vec<Client>,
@@ -355,17 +356,31 @@ struct World {
 
 impl World {
     async fn settle(&self) {
-        if self.sockets {
-            for _ in 0..4 {
-                for _ in 0..40 {
+        // real sockets: give the kernel and the reactor time (Nagle / delayed ACK on TCP); the log
+        // must have been unchanged for `need` sleeping rounds.  Wall-clock is never observed.
+        if self.sockets.0 > 0 {
+            let (ms, need) = self.sockets;
+            let mut last = self.log.len();
+            let mut stable = 0;
+            let mut rounds = 0;
+            while stable < need && rounds < 400 {
+                for _ in 0..20 {
                     tokio::task::yield_now().await;
                 }
-                tokio::time::sleep(std::time::Duration::from_millis(2)).await;
+                tokio::time::sleep(std::time::Duration::from_millis(ms)).await;
+                rounds += 1;
+                let n = self.log.len();
+                if n == last {
+                    stable += 1;
+                } else {
+                    stable = 0;
+                    last = n;
+                }
             }
         }
+        // at least 60 rounds, and the log must have been unchanged for the last 30 of them
         let mut stable = 0;
         let mut last = self.log.len();
-        // at least 60 rounds, and the log must have been unchanged for the last 30 of them
         let mut rounds = 0;
         while rounds < 60 || stable < 30 {
             tokio::task::yield_now().await;
@@ -727,7 +742,7 @@ async fn run_case(line: String) -> String {
         _ => launch!(hyperdriver::server::conn::auto::Builder::default()),
     };
 
-    let mut w = World { log: log.clone(), sockets: matches!(transport, "tcp" | "unix"), tls, dial, clients: Vec::new(), gates, stop };
+    let mut w = World { log: log.clone(), sockets: match transport { "tcp" => (5, 12), "unix" => (2, 4), _ => (0, 0) }, tls, dial, clients: Vec::new(), gates, stop };
     for tok in &f[3..] {
         match *tok {
             "G" => {
